@@ -41,6 +41,7 @@ KFN int k_json_parse(const char* s, unsigned long n, unsigned long sp1, unsigned
     new (&p.inf_to_str_) std::string(); new (&p.neginf_to_str_) std::string(); new (&p.nan_to_str_) std::string();
     new (&p.err_handler_) std::function<bool(json_errc, const ser_context&)>(default_json_parsing());
     new (&p.buffer_) std::string();
+    p.buffer_.reserve(24);   // like the real constructor's reserve(256): the text buffer lives in its own heap object, not in the parser's SSO bytes
     new (&p.state_stack_) std::vector<parse_state>();
     p.state_stack_.reserve(8);
     p.line_ = 1; p.more_ = true; p.state_ = parse_state::start;
